@@ -283,6 +283,7 @@ struct ThetaTr {
 };
 
 template<typename S> struct add_policy { void operator()(S& a, const S& b) const { a += b; } };
+template<> struct add_policy<int64_t> { void operator()(int64_t& a, const int64_t& b) const { a = (int64_t)((uint64_t)a + (uint64_t)b); } };
 
 template<typename S, typename SD, int TAG> struct TupleTr {
   typedef update_tuple_sketch<S> Upd; typedef compact_tuple_sketch<S> Cmp;
@@ -671,14 +672,14 @@ static std::string step(const std::vector<std::string>& w) {
     for (int i = 0; i < 8; ++i) v[i] = u64_of(w.at(3 + i));
     bytes_t buf(n ? n : 1, 0xAA);
     pack_bits_block8(v, buf.data(), n);
-    return "BP " + vh::hex_of_bytes(buf.data(), n) + " spec=1";
+    return "BP " + vh::hex_of_bytes(buf.data(), n);
   }
   if (op == "BP" && w[1] == "unpack") {
     uint8_t n = (uint8_t)atoi(w[2].c_str()); bytes_t b = vh::bytes_of_hex(w[3]); uint64_t v[8];
     for (int i = 0; i < 8; ++i) v[i] = 0xDEADBEEFULL;
     std::unique_ptr<uint8_t[]> blk(new uint8_t[b.size() ? b.size() : 1]); memcpy(blk.get(), b.data(), b.size());
     unpack_bits_block8(v, blk.get(), n);
-    std::ostringstream os; os << "BPU"; for (int i = 0; i < 8; ++i) os << " " << v[i]; os << " spec=1"; return os.str();
+    std::ostringstream os; os << "BPU"; for (int i = 0; i < 8; ++i) os << " " << v[i]; return os.str();
   }
   if (op == "BPT") {
     uint8_t eb = (uint8_t)atoi(w[1].c_str()); std::vector<uint64_t> vals; for (size_t i = 2; i < w.size(); ++i) vals.push_back(u64_of(w[i]));
